@@ -23,6 +23,11 @@ type c29lCase struct {
 	Cancel []int    `json:"cancel"`
 }
 
+// c29LBound: offsets are exact here (single-character tokens, lexer offset recorded at the
+// cancellation), so twice the template's polling interval of 512 shifts is tolerated: a polling
+// shift that is stepped over inside a lookahead then shows after two misses in a row.
+const c29LBound = 1024
+
 func c29lGen(t *rapid.T) c29lCase {
 	c := c29lCase{B: c08bGen(t), Seed: rapid.IntRange(0, 1<<30).Draw(t, "seed")}
 	c.B.Cancellable = true
@@ -57,11 +62,21 @@ func c29lCheck(c c29lCase, res *batch.Result, run runFunc, r *ev.Recorder) *Fail
 		return nil
 	}
 	sawCtx, sawDone := false, false
-	for _, items := range []int{8, 900, 2500} {
+	// random inputs, and regular ones repeating 1, 2 or 3 items: with a regular input the shifts
+	// at which the context is polled can all fall into the same part of an item
+	for _, in := range [][2]int{{8, 0}, {900, 0}, {2500, 0}, {2500, 1}, {2501, 2}, {2502, 3}} {
+		items := in[0]
 		rnd := &lcg{uint64(c.Seed) + uint64(items)}
+		pattern := make([]int, in[1])
+		for i := range pattern {
+			pattern[i] = good[rnd.next(len(good))]
+		}
 		var sb strings.Builder
 		for i := 0; i < items; i++ {
 			asg := good[rnd.next(len(good))]
+			if len(pattern) > 0 {
+				asg = pattern[i%len(pattern)]
+			}
 			for j := 0; j < m; j++ {
 				if asg&(1<<j) != 0 {
 					sb.WriteByte('T')
@@ -101,8 +116,8 @@ func c29lCheck(c c29lCase, res *batch.Result, run runFunc, r *ev.Recorder) *Fail
 			end, _ := strconv.Atoi(f[3])
 			if f[1] == "ctx" {
 				sawCtx = true
-				if end-at > c29Bound+2 {
-					return failf("late-stop", "cancelled at event %d (lexer offset %d) the parser consumed %d more tokens before returning the context error (bound %d); %s", k, at, end-at, c29Bound, short)
+				if end-at > c29LBound+2 {
+					return failf("late-stop", "cancelled at event %d (lexer offset %d) the parser consumed %d more tokens before returning the context error (bound %d); %s", k, at, end-at, c29LBound, short)
 				}
 				continue
 			}
@@ -110,8 +125,8 @@ func c29lCheck(c c29lCase, res *batch.Result, run runFunc, r *ev.Recorder) *Fail
 				return failf("wrong-parse", "cancelled at event %d the parse returns %q with events (count:hash) %s; uncancelled it returns %q with %s; %s", k, f[1], f[0], bf[1], bf[0], short)
 			}
 			sawDone = true
-			if at >= 0 && end-at > c29Bound+2 {
-				return failf("cancellation-ignored", "cancelled at event %d (lexer offset %d) with %d tokens left, the parse ran to completion (bound %d); %s", k, at, end-at, c29Bound, short)
+			if at >= 0 && end-at > c29LBound+2 {
+				return failf("cancellation-ignored", "cancelled at event %d (lexer offset %d) with %d tokens left, the parse ran to completion (bound %d); %s", k, at, end-at, c29LBound, short)
 			}
 		}
 	}
@@ -126,7 +141,7 @@ func c29lCheck(c c29lCase, res *batch.Result, run runFunc, r *ev.Recorder) *Fail
 func TestC29L(t *testing.T) {
 	p := &batchProp[c29lCase]{
 		ID:        "C29",
-		Rule:      "generated parsers, lookahead family: `File: Item+` where every Item is chosen by runtime lookahead predicates (the C08 tier-B grammars: ordered decision trees of `(?= P0 & !P1)` alternatives, recursiveLookaheads and optimizeTables on/off) with cancellable = true; inputs of 8, 900 and 2500 items; eight cancellation points per input as in TestC29. Same checks: context error or exactly the uncancelled result and events; bounded consumption after cancellation (single-character tokens, so offsets count tokens).",
+		Rule:      "generated parsers, lookahead family: `File: Item+` where every Item is chosen by runtime lookahead predicates (the C08 tier-B grammars: ordered decision trees of `(?= P0 & !P1)` alternatives, recursiveLookaheads and optimizeTables on/off) with cancellable = true; random inputs of 8, 900 and 2500 items and regular ones of ~2500 items repeating 1, 2 or 3 items; eight cancellation points per input as in TestC29. Same checks: context error or exactly the uncancelled result and events; bounded consumption after cancellation (single-character tokens, so offsets count tokens).",
 		Quick:     32, Thorough: 480, BatchSize: 32,
 		Gen:       c29lGen,
 		Unit: func(c c29lCase, name string) (batch.Unit, bool) {
